@@ -28,7 +28,7 @@ import (
 	"verifharness/gen"
 )
 
-var schema = gqlparser.MustLoadSchema(&ast.Source{Name: "s.graphqls", Input: `type Query { a: String }`})
+var schema = gqlparser.MustLoadSchema(&ast.Source{Name: "s.graphqls", Input: `type Query { a(k: Int, size: Int): String }`})
 
 // plan: the payloads an operation produces and the pause before each (microseconds, spin-waited for precision)
 type plan struct {
@@ -419,5 +419,6 @@ func Run(c *gen.Ctx) error {
 	if len(descr) > 6 {
 		meta.Samples = append(meta.Samples, descr[2], descr[6])
 	}
+	concurrentStreams(c, gen.NewRand(c.Seed+17), meta)
 	return meta.Write(c.OutDir)
 }
